@@ -1,5 +1,113 @@
 import XmpProofs.Control
+/-!
+# C17 — Position control lands exactly where asked
+
+Theorems over `Xmp.Control` (model of `src/control.c` and of the part of `xmp_play_frame` in
+`src/player.c` that runs before `read_row`).  `Valid m p`: order `p` exists and holds a pattern;
+`Member m p q`: it belongs to sequence `q`.  The *next frame* is `playFrame m s₁` for the state
+`s₁` left by the call; `frameInfo` is what `xmp_get_frame_info` reports afterwards.
+-/
 namespace Xmp.Control
-theorem C17_stop_sets (s : St) (h : s.playing = true) : (xmpStop s).pos = -2 := by
-  simp [xmpStop, h]
+
+/-- What the property demands of the frame rendered after a successful jump to order `p` of
+sequence `q` (prior state `s`): success, `xmp_frame_info` reports order `p`, its pattern, row 0,
+tick 0, sequence `q`; when `read_row` starts, speed/bpm/volume/time are those the scan recorded
+for `p` and no break, jump, pattern delay, row delay or pattern loop is pending. -/
+structure LandsOn (m : CMod) (s : St) (fr : FrameRes) (p q : Int) : Prop where
+  rc : fr.rc = 0
+  pos : (frameInfo m fr.st).pos = p
+  pattern : (frameInfo m fr.st).pattern = m.xxoAt p
+  row : (frameInfo m fr.st).row = 0
+  frame : (frameInfo m fr.st).frame = 0
+  sequence : (frameInfo m fr.st).sequence = q
+  numRows : (frameInfo m fr.st).numRows = m.rowsOf (m.xxoAt p)
+  ord : fr.st.ord = p
+  speed : fr.st.speed = (if (m.infoAt p).speed ≠ 0 then (m.infoAt p).speed else s.speed)
+  bpm : fr.st.bpm = (m.infoAt p).bpm
+  gvol : fr.st.gvol = (m.infoAt p).gvl
+  time : fr.st.time = (m.infoAt p).time
+  mid : ∃ s', fr.mid = some s' ∧ s'.f.pbreak = 0 ∧ s'.f.jump = -1 ∧ s'.f.jumpline = 0 ∧
+        s'.f.delay = 0 ∧ s'.f.rowdelay = 0 ∧ s'.f.loopDest = -1 ∧ s'.f.loopStart = -1 ∧
+        s'.f.loopCount = 0
+
+/-- the frame that enters order `t` (helper for all landing theorems). -/
+theorem landsOn_entered (m : CMod) (s0 s : St) (t q ep : Int) (hv : Valid m t) (hq : s.sequence = q)
+    (hsp : s.speed = s0.speed)
+    (hflow : s.f.pbreak = 0 ∧ s.f.delay = 0 ∧ s.f.rowdelay = 0 ∧ s.f.loopDest = -1 ∧
+             s.f.loopStart = -1 ∧ s.f.loopCount = 0) :
+    LandsOn m s0 ⟨0, some (entered m s t ep), checkEnd m (entered m s t ep)⟩ t q := by
+  obtain ⟨hp0, hpl, hpat, _⟩ := hv
+  obtain ⟨c1, c2, c3, c4, c5, c6, c7, c8, c9, _, c11⟩ := checkEnd_fields m (entered m s t ep)
+  have hin : 0 ≤ t ∧ t < m.len := ⟨hp0, hpl⟩
+  have e1 : (entered m s t ep).pos = t := by simp [entered]
+  have e2 : (entered m s t ep).row = 0 := by simp [entered]
+  have e3 : (entered m s t ep).frame = 0 := by simp [entered]
+  have e4 : (entered m s t ep).sequence = s.sequence := by simp [entered]
+  have e5 : (entered m s t ep).ord = t := by simp [entered]
+  refine ⟨rfl, ?_, ?_, ?_, ?_, ?_, ?_, ?_, ?_, ?_, ?_, ?_, ?_⟩
+  · simp [frameInfo, c2, e1, hin]
+  · simp [frameInfo, c2, e1, hin]
+  · simp [frameInfo, c3, e2]
+  · simp [frameInfo, c4, e3]
+  · simp [frameInfo, c5, e4, hq]
+  · simp [frameInfo, c2, e1, hin, hpat]
+  · simp [c1, e5]
+  · simp [c6, entered, hsp]
+  · simp [c7, entered]
+  · simp [c8, entered]
+  · simp [c9, entered]
+  · refine ⟨_, rfl, ?_⟩
+    obtain ⟨f1, f2, f3, f4, f5, f6⟩ := hflow
+    by_cases hl : m.lpReset = true <;> simp [entered, hl, f1, f2, f3, f4, f5, f6]
+
+/-
+Full-strength statement (NOT provable, the code violates two of its clauses):
+
+  theorem C17_set_position (m s p q) (playing, sitting on a pattern) (hM : Member m p q) :
+    ∃ s₁ fr, xmpSetPosition m s p = some (p, s₁) ∧ playFrame m s₁ = some fr ∧ LandsOn m s fr p q
+
+* the reported value is `p` only for `p ≠ 0`: for the first order the call returns the internal
+  restart marker `-1` (`C17_set_position_ret0_counterexample`; known finding, pinned by
+  test-dev/test_player_loop.c);
+* the landing fails when `p` is the order being played (`p = s.ord ≠ 0`): the call stores
+  `p->pos = p = p->ord`, `xmp_play_frame` sees no reposition and playback continues mid-pattern
+  (`C17_set_position_current_order_counterexample`).
+The partial theorem below carries exactly these two exclusions.
+-/
+
+/-- **C17_set_position (partial)**.  For every prior state `s` (any pending break / jump /
+pattern delay / row delay / pattern loop / reposition) of a playing context that is not sitting
+on an end marker, and every order `p` of sequence `q` holding a pattern that is not the order
+being played (or is order 0): `xmp_set_position` succeeds, reports `p` (`-1` for `p = 0`), and
+the next frame is row 0, tick 0 of order `p` in sequence `q` with the scan's speed / bpm /
+volume / time for `p` and a clean flow state. -/
+theorem C17_set_position_partial (m : CMod) (s : St) (p q : Int)
+    (hs : s.playing = true) (hord : ¬(m.marker = true ∧ m.xxoAt s.ord = 0xff)) (hord1 : s.ord ≠ -1)
+    (hM : Member m p q) (hcur : s.ord ≠ p ∨ p = 0) :
+    ∃ s1 fr, xmpSetPosition m s p = some ((if p = 0 then -1 else p), s1) ∧
+      playFrame m s1 = some fr ∧ LandsOn m s fr p q := by
+  obtain ⟨hv, hseq, hq0, hqff, he0, hep⟩ := hM
+  have hp0 := hv.1
+  have hpl := hv.2.1
+  have hsp : setPosition m s p 0 = some (landed m s q p) :=
+    setPosition_valid m s p 0 q hv (by simp [hseq]) hqff hq0
+  have hrange : ¬(p < 0 ∨ p ≥ m.len) := by omega
+  refine ⟨landed m s q p, ⟨0, some (entered m (landed m s q p) p (repoEndPoint m (landed m s q p) p)),
+    checkEnd m (entered m (landed m s q p) p (repoEndPoint m (landed m s q p) p))⟩, ?_, ?_, ?_⟩
+  · simp [xmpSetPosition, hs, hrange, hsp, landed]
+  · apply playFrame_enters m (landed m s q p) p
+    · simpa [landed] using hs
+    · simpa [landed] using hord
+    · simp only [landed]; split <;> omega
+    · simp only [landed]; split <;> omega
+    · exact hv
+    · by_cases h0 : p = 0
+      · right; subst h0; simp only [landed, if_true, true_and]; omega
+      · left; simp [landed, h0]
+    · simpa [landed] using hep
+  · apply landsOn_entered m s (landed m s q p) p q _ hv
+    · simp [landed]
+    · simp [landed]
+    · simp [landed, resetFlow]
+
 end Xmp.Control
